@@ -24,8 +24,9 @@ Passes (all applied by default; VERIF_NORM=0 switches the normaliser off):
            d.setdefault(k, []).append(v) -> if k not in d: d[k] = []
                                             d[k].append(v)
   unroll   for v in (p.a, q, r.b): BODY  ->  BODY[v:=p.a]; BODY[v:=q]; BODY[v:=r.b]
-           (a literal tuple/list of at most 8 names or attribute paths, v not assigned in BODY,
-           no break/continue in BODY: a spelled-out list of actions)
+           (a literal tuple/list of at most 12 names, attribute paths or string literals, v not assigned in
+           BODY, no break/continue in BODY: a spelled-out list of actions)
+  setattr  setattr(x, 'name', v) -> x.name = v ;  getattr(x, 'name') -> x.name      (literal identifier)
   compare  lit OP x  ->  x OP' lit   (a literal operand goes to the right; both operands free of calls)
            not (a == b) -> a != b, likewise !=, is, is not, in, not in (exact; order comparisons are left
            alone because of NaN);  if not C: A else: B  ->  if C: B else: A
@@ -285,9 +286,11 @@ def _lower_setdefault(st):
 
 def _unroll_literal(st):
     if not (isinstance(st, ast.For) and isinstance(st.target, ast.Name) and not st.orelse
-            and isinstance(st.iter, (ast.Tuple, ast.List)) and 1 <= len(st.iter.elts) <= 8):
+            and isinstance(st.iter, (ast.Tuple, ast.List)) and 1 <= len(st.iter.elts) <= 12):
         return None
-    if not all(isinstance(e, (ast.Name, ast.Attribute)) and access_path(e) is not None for e in st.iter.elts):
+    names = all(isinstance(e, (ast.Name, ast.Attribute)) and access_path(e) is not None for e in st.iter.elts)
+    strings = all(isinstance(e, ast.Constant) and isinstance(e.value, str) for e in st.iter.elts)      # field names
+    if not (names or strings):
         return None
     v = st.target.id
     for n in ast.walk(ast.Module(body=st.body, type_ignores=[])):
@@ -352,12 +355,34 @@ def _canon_exprs(st):
     """apply _Cmp to the expressions a statement owns (not to nested statements)"""
     for f, v in ast.iter_fields(st):
         if isinstance(v, ast.expr):
-            setattr(st, f, _Cmp().visit(v))
+            setattr(st, f, _Attr().visit(_Cmp().visit(v)))
         elif isinstance(v, list) and v and isinstance(v[0], ast.expr):
-            setattr(st, f, [_Cmp().visit(x) for x in v])
+            setattr(st, f, [_Attr().visit(_Cmp().visit(x)) for x in v])
     if isinstance(st, (ast.With, ast.AsyncWith)):
         for it in st.items:
             it.context_expr = _Cmp().visit(it.context_expr)
+
+
+class _Attr(ast.NodeTransformer):
+    def visit_Call(self, n):
+        self.generic_visit(n)
+        if isinstance(n.func, ast.Name) and n.func.id == "getattr" and len(n.args) == 2 and not n.keywords \
+                and isinstance(n.args[1], ast.Constant) and isinstance(n.args[1].value, str) and n.args[1].value.isidentifier():
+            return ast.copy_location(ast.Attribute(value=n.args[0], attr=n.args[1].value, ctx=ast.Load()), n)
+        return n
+
+    def visit_Lambda(self, n):
+        return n
+
+
+def _setattr(st):
+    if isinstance(st, ast.Expr) and isinstance(st.value, ast.Call) and isinstance(st.value.func, ast.Name) and st.value.func.id == "setattr" \
+            and len(st.value.args) == 3 and not st.value.keywords and isinstance(st.value.args[1], ast.Constant) \
+            and isinstance(st.value.args[1].value, str) and st.value.args[1].value.isidentifier() and access_path(st.value.args[0]) is not None:
+        a = st.value.args
+        STATS["setattr"] = STATS.get("setattr", 0) + 1
+        return [_loc(ast.Assign(targets=[ast.Attribute(value=a[0], attr=a[1].value, ctx=ast.Store())], value=a[2]), st)]
+    return None
 
 
 def _swap_not(st):
@@ -503,6 +528,9 @@ def _stmt(st, fx, occ):
         return [st]
     _canon_exprs(st)
     r = _swap_not(st)
+    if r is not None:
+        return _block(r, fx, occ)
+    r = _setattr(st)
     if r is not None:
         return _block(r, fx, occ)
     idx = _unenum(st)
